@@ -43,7 +43,22 @@ static void op_nt_mxp_few(int argc, char **argv) {
 	fputc('\n', OUT);
 }
 
+/* nt_mxp_lot <m> <a0> <b0> <a1> <b1> ... : bn_mxp_sim_lot(c, a, b, m, n), up to 20 pairs */
+static void op_nt_mxp_lot(int argc, char **argv) {
+	if (argc < 2 || ((argc - 2) & 1) || (argc - 2) / 2 > 20) { fprintf(OUT, "bad-args\n"); return; }
+	size_t n = (size_t)(argc - 2) / 2;
+	bn_t a[21], b[21], c, m; int caught = 0;
+	NEW(c); NEW(m);
+	for (size_t i = 0; i < 21; i++) { NEW(a[i]); NEW(b[i]); }
+	tok_bn(m, argv[1]);
+	for (size_t i = 0; i < n; i++) { tok_bn(a[i], argv[2 + 2 * i]); tok_bn(b[i], argv[3 + 2 * i]); }
+	RLC_TRY { bn_mxp_sim_lot(c, (const bn_t *)a, (const bn_t *)b, m, n); } RLC_CATCH_ANY { caught = 1; }
+	if (take_err() || caught) fprintf(OUT, "err"); else bn_out(c);
+	fputc('\n', OUT);
+}
+
 const op_t ops_nt_mxp[] = {
+	{"nt_mxp_lot", op_nt_mxp_lot},
 	{"nt_mxp_few", op_nt_mxp_few},
 	{"nt_mxp_crt", op_nt_mxp_crt},
 	{NULL, NULL}
